@@ -2,9 +2,10 @@
 # tools/seeded_regress.sh [id...]   re-runs, for every recorded seeded change, the checks that caught it
 # (apply patch to /repo, ./check <prop> quick, revert) and reports changes that have become silent.
 # Evidence files are preserved (they describe runs on the real tree).
-cd /verif
+ROOT=$(cd "$(dirname "$0")/.." && pwd); cd "$ROOT"
+REPO=${VERIF_REPO:-/repo}   # a scratch worktree of the repository can be named instead (./check honours VERIF_REPO too)
 IDS="$*"; [ -z "$IDS" ] && IDS=$(ls seeded | grep -v "^_")
-if ! git -C /repo diff --quiet; then echo "/repo has uncommitted changes; refusing"; exit 2; fi
+if ! git -C "$REPO" diff --quiet; then echo "$REPO has uncommitted changes; refusing"; exit 2; fi
 rm -rf .work/evidence.regress && cp -r evidence .work/evidence.regress
 SILENT=""
 for id in $IDS; do
@@ -14,7 +15,7 @@ m=json.load(open('seeded/$id/meta.json'))
 print('SKIP' if m.get('expected_silent') else ' '.join(p for p,r in m.get('checks_run',{}).items() if r.get('exit')==1))")
   [ "$props" = "SKIP" ] && { echo "$id: expected to stay silent (see meta.json)"; continue; }
   [ -z "$props" ] && { echo "$id: no catching check recorded"; SILENT="$SILENT $id"; continue; }
-  git -C /repo apply /verif/seeded/$id/patch.diff || { echo "$id: patch does not apply"; SILENT="$SILENT $id(apply)"; continue; }
+  git -C "$REPO" apply $ROOT/seeded/$id/patch.diff || { echo "$id: patch does not apply"; SILENT="$SILENT $id(apply)"; continue; }
   for p in $props; do
     ./check $p quick > .work/regress_${id}_$p.log 2>&1; rc=$?
     rule=$(grep -m1 '^violation rule=' .work/regress_${id}_$p.log | sed 's/^violation rule=\([^ ]*\).*/\1/')
@@ -22,7 +23,7 @@ print('SKIP' if m.get('expected_silent') else ' '.join(p for p,r in m.get('check
     echo "$id $p exit=$rc $rule violating_runs=${vr:-?}"
     [ $rc -ne 1 ] && SILENT="$SILENT $id/$p(exit=$rc)"
   done
-  git -C /repo checkout -- . && git -C /repo clean -fdq
+  git -C "$REPO" checkout -- . && git -C "$REPO" clean -fdq
 done
 rm -rf evidence && mv .work/evidence.regress evidence
 echo "silent:${SILENT:- none}"
